@@ -737,4 +737,133 @@ theorem lexName_bounds (cs : List Char) (h0 : 0 < nameLen cs) :
     · simp only; omega
   · simp only; omega
 
+theorem nameStart_nameChar (c : Char) (h : isNameStart c = true) : isNameChar c = true := by
+  unfold isNameStart at h; unfold isNameChar Char.isAlphanum
+  simp only [Bool.or_eq_true] at h ⊢
+  rcases h with h | h
+  · exact Or.inl (Or.inl h)
+  · exact Or.inr h
+
+theorem startsWith_len (p : String) (cs : List Char) (h : startsWith p cs = true) :
+    p.toList.length ≤ cs.length := by
+  unfold startsWith at h
+  exact (List.isPrefixOf_iff_prefix.mp h).length_le
+
+/-- Whatever `lexLen` reports lies inside the text and is not empty: the guard in `lexOne` never
+    rejects a token. -/
+theorem lexLen_bounds (cs : List Char) (k : K) (n : Nat) (h : lexLen cs = some (k, n)) :
+    0 < n ∧ n ≤ cs.length := by
+  unfold lexLen at h
+  split at h
+  · cases h
+  · rename_i c r
+    split at h
+    · rename_i hw
+      simp only [Option.some.injEq, Prod.mk.injEq] at h
+      obtain ⟨_, rfl⟩ := h
+      refine ⟨?_, (List.takeWhile_sublist _).length_le⟩
+      simp [List.takeWhile_cons, hw]
+    · split at h
+      · rename_i hn
+        simp only [Option.some.injEq] at h
+        have h0 : 0 < nameLen (c :: r) := by
+          unfold nameLen; simp [List.takeWhile_cons, nameStart_nameChar c hn]
+        have := lexName_bounds (c :: r) h0
+        rw [h] at this; exact this
+      · split at h
+        · rename_i hdg
+          simp only [Option.some.injEq] at h
+          have h0 : 0 < digitsLen (c :: r) := by
+            unfold digitsLen; simp [List.takeWhile_cons, hdg]
+          have := lexNumber_bounds (c :: r) h0
+          rw [h] at this; exact this
+        · split at h
+          all_goals first
+            | (cases h; done)
+            | (simp only [Option.some.injEq, Prod.mk.injEq] at h; obtain ⟨_, rfl⟩ := h; simp only [List.length_cons]; omega)
+            | skip
+          -- '.': fraction or DOT
+          · split at h
+            · rename_i f hf
+              simp only [Option.some.injEq, Prod.mk.injEq] at h
+              obtain ⟨_, rfl⟩ := h
+              have := fracLen_bounds _ f hf
+              simp only [List.length_cons]; omega
+            · simp only [Option.some.injEq, Prod.mk.injEq] at h
+              obtain ⟨_, rfl⟩ := h
+              simp only [List.length_cons]; omega
+          -- '"': string
+          · simp only [Option.map_eq_some_iff] at h
+            obtain ⟨a, ha, h⟩ := h
+            simp only [Prod.mk.injEq] at h
+            obtain ⟨_, rfl⟩ := h
+            have := strLen_bounds _ a ha
+            simp only [List.length_cons]; omega
+          -- '//': comment or DIV
+          · split at h
+            · rename_i f hf
+              simp only [Option.some.injEq, Prod.mk.injEq] at h
+              obtain ⟨_, rfl⟩ := h
+              have := commentLen_bounds _ f hf
+              simp only [List.length_cons]; omega
+            · simp only [Option.some.injEq, Prod.mk.injEq] at h
+              obtain ⟨_, rfl⟩ := h
+              simp only [List.length_cons]; omega
+          -- '@': the four implicit literals
+          · split at h
+            · rename_i hp
+              have := startsWith_len _ _ hp
+              simp only [Option.some.injEq, Prod.mk.injEq] at h
+              obtain ⟨_, rfl⟩ := h
+              simp only [List.length_cons]
+              have e : "name".toList.length = 4 := by decide
+              omega
+            · split at h
+              · rename_i hp
+                have := startsWith_len _ _ hp
+                simp only [Option.some.injEq, Prod.mk.injEq] at h
+                obtain ⟨_, rfl⟩ := h
+                simp only [List.length_cons]
+                have e : "id".toList.length = 2 := by decide
+                omega
+              · split at h
+                · rename_i hp
+                  have := startsWith_len _ _ hp
+                  simp only [Option.some.injEq, Prod.mk.injEq] at h
+                  obtain ⟨_, rfl⟩ := h
+                  simp only [List.length_cons]
+                  have e : "desc".toList.length = 4 := by decide
+                  omega
+                · split at h
+                  · rename_i hp
+                    have := startsWith_len _ _ hp
+                    simp only [Option.some.injEq, Prod.mk.injEq] at h
+                    obtain ⟨_, rfl⟩ := h
+                    simp only [List.length_cons]
+                    have e : "sal".toList.length = 3 := by decide
+                    omega
+                  · cases h
+
+theorem lexOne_of_lexLen (cs : List Char) (k : K) (n : Nat) (h : lexLen cs = some (k, n)) :
+    lexOne cs = some (⟨k, cs.take n⟩, cs.drop n) := by
+  unfold lexOne
+  rw [h]
+  simp only []
+  rw [if_pos (lexLen_bounds cs k n h)]
+
+/-- **The guard of `lexOne` never rejects**: a step fails exactly when no token rule matches at the
+    head of the text, so `C01_lex_reject`'s position is a genuine token recognition error. -/
+theorem C01_lex_guard_never_rejects (cs : List Char) : lexOne cs = none ↔ lexLen cs = none := by
+  constructor
+  · intro h
+    cases hl : lexLen cs with
+    | none => rfl
+    | some p =>
+      obtain ⟨k, n⟩ := p
+      rw [lexOne_of_lexLen cs k n hl] at h
+      cases h
+  · intro h
+    unfold lexOne
+    rw [h]
+
 end GV.Props.C01l
